@@ -9,6 +9,26 @@ def RInv (rs : Requests) : Prop :=
   (idx rs.queue ++ idx rs.requested).Nodup ∧
   ∀ c, rs.member c = true ↔ c ∈ idx rs.queue ∨ c ∈ idx rs.requested
 
+theorem mem_swapRemove {α : Type} {l : List α} {i : Nat} {x : α} (h : x ∈ swapRemove l i) : x ∈ l := by
+  unfold swapRemove at h
+  simp only at h
+  cases hb : (l.drop (i + 1)).getLast? with
+  | none => rw [hb] at h; exact List.mem_of_mem_take h
+  | some y =>
+    rw [hb] at h
+    simp only [List.mem_append, List.mem_cons] at h
+    rcases h with h | h | h
+    · exact List.mem_of_mem_take h
+    · subst h; exact List.mem_of_mem_drop (List.mem_of_getLast? hb)
+    · exact List.mem_of_mem_drop (List.dropLast_subset _ h)
+
+theorem findIdx_some {l : List Req} {c i : Nat} (h : findIdx l c = some i) :
+    ∃ r, l[i]? = some r ∧ r.index = c := by
+  unfold findIdx at h
+  rw [List.findIdx?_eq_some_iff_getElem] at h
+  obtain ⟨hi, hp, _⟩ := h
+  exact ⟨l[i], List.getElem?_eq_getElem hi, by simpa using hp⟩
+
 theorem RInv_empty : RInv {} := by
   constructor <;> simp [idx]
 
@@ -124,5 +144,296 @@ theorem RInv_clear_both (rs : Requests) : RInv (clear rs true).1 := by
   unfold clear
   simp only [if_true]
   constructor <;> simp [idx]
+
+/-! ### swap-remove, cancel marks, `Clear(false)`, ageing -/
+
+theorem swapRemove_perm {α : Type} (l : List α) (i : Nat) :
+    (swapRemove l i).Perm (l.take i ++ l.drop (i + 1)) := by
+  unfold swapRemove
+  simp only
+  cases hb : (l.drop (i + 1)).getLast? with
+  | none =>
+    rw [List.getLast?_eq_none_iff] at hb
+    rw [hb]; simp
+  | some y =>
+    obtain ⟨ys, hys⟩ := List.getLast?_eq_some_iff.1 hb
+    rw [hys, List.dropLast_concat]
+    exact List.Perm.append_left _ (List.perm_append_singleton y ys).symm
+
+theorem split_at {α : Type} (l : List α) (i : Nat) (h : i < l.length) :
+    l = l.take i ++ l[i] :: l.drop (i + 1) := by
+  conv => lhs; rw [← List.take_append_drop i l]
+  rw [List.drop_eq_getElem_cons h]
+
+theorem nodup_remove_mid {A P S : List Nat} {c : Nat} (h : (A ++ (P ++ c :: S)).Nodup) :
+    (A ++ (P ++ S)).Nodup ∧ c ∉ A ∧ c ∉ P ∧ c ∉ S := by
+  simp only [List.nodup_append, List.nodup_cons, List.mem_append, List.mem_cons] at h ⊢
+  grind
+
+/-- removing the found entry `l[i]` (chunk `c`) by swap-remove: the chunk numbers left are a
+    permutation of those before and after position `i` -/
+theorem idx_swapRemove {l : List Req} {i c : Nat} {r0 : Req} (hr : l[i]? = some r0)
+    (hc : r0.index = c) :
+    ∃ P S, idx l = P ++ c :: S ∧ (idx (swapRemove l i)).Perm (P ++ S) := by
+  obtain ⟨hi, hli⟩ := List.getElem?_eq_some_iff.1 hr
+  refine ⟨idx (l.take i), idx (l.drop (i + 1)), ?_, ?_⟩
+  · have := congrArg idx (split_at l i hi)
+    rw [this]
+    simp only [idx, List.map_append, List.map_cons, hli, hc]
+  · have := (swapRemove_perm l i).map (·.index)
+    simpa [idx] using this
+
+theorem RInv_del {rs rs2 : Requests} {c : Nat} {ro q r : Bool} (h : RInv rs)
+    (hd : del rs c ro = some (rs2, q, r)) :
+    RInv rs2 ∧ (∀ x, x ∈ rs2.requested → x ∈ rs.requested) ∧
+      (∀ x, x ∈ rs2.queue → x ∈ rs.queue) := by
+  unfold del at hd
+  split at hd
+  · cases hd; exact ⟨h, fun _ hx => hx, fun _ hx => hx⟩
+  · split at hd
+    · rename_i i hf
+      cases hd
+      obtain ⟨r0, hr0, hc0⟩ := findIdx_some hf
+      obtain ⟨P, S, hidx, hperm⟩ := idx_swapRemove hr0 hc0
+      refine ⟨⟨?_, ?_⟩, fun _ hx => mem_swapRemove hx, fun _ hx => hx⟩
+      · have hn := h.1
+        rw [hidx] at hn
+        have := nodup_remove_mid hn
+        exact ((List.Perm.append_left (idx rs.queue) hperm).nodup_iff).2 this.1
+      · intro x
+        have hn := h.1
+        rw [hidx] at hn
+        have hfacts := nodup_remove_mid hn
+        have hm := h.2 x
+        rw [hidx] at hm
+        have hp := hperm.mem_iff (a := x)
+        simp only [mreset, Bool.and_eq_true, bne_iff_ne, ne_eq, List.mem_append, List.mem_cons] at *
+        grind
+    · split at hd
+      · cases hd; exact ⟨h, fun _ hx => hx, fun _ hx => hx⟩
+      · split at hd
+        · rename_i i hf
+          cases hd
+          obtain ⟨r0, hr0, hc0⟩ := findIdx_some hf
+          obtain ⟨P, S, hidx, hperm⟩ := idx_swapRemove hr0 hc0
+          have hn : (idx rs.requested ++ (P ++ c :: S)).Nodup := by
+            have := h.1
+            rw [hidx] at this
+            exact (List.perm_append_comm.nodup_iff).1 this
+          have hfacts := nodup_remove_mid hn
+          refine ⟨⟨?_, ?_⟩, fun _ hx => hx, fun _ hx => mem_swapRemove hx⟩
+          · have h1 : (idx rs.requested ++ idx (swapRemove rs.queue i)).Nodup :=
+              ((List.Perm.append_left (idx rs.requested) hperm).nodup_iff).2 hfacts.1
+            exact (List.perm_append_comm.nodup_iff).1 h1
+          · intro x
+            have hm := h.2 x
+            rw [hidx] at hm
+            have hp := hperm.mem_iff (a := x)
+            simp only [mreset, Bool.and_eq_true, bne_iff_ne, ne_eq, List.mem_append,
+              List.mem_cons] at *
+            grind
+        · cases hd
+
+theorem RInv_delRequested {rs : Requests} (h : RInv rs) (c : Nat) :
+    RInv (delRequested rs c).1 ∧ (∀ x, x ∈ (delRequested rs c).1.requested → x ∈ rs.requested) := by
+  unfold delRequested
+  cases hd : del rs c true with
+  | none => exact ⟨h, fun _ hx => hx⟩
+  | some t =>
+    obtain ⟨rs2, q, r⟩ := t
+    have := RInv_del h hd
+    exact ⟨this.1, this.2.1⟩
+
+/-- marking a request (cancel mark / time stamps) does not change any chunk number -/
+theorem idx_set_same {l : List Req} {i : Nat} {r r' : Req} (hr : l[i]? = some r)
+    (hi : r'.index = r.index) : idx (l.set i r') = idx l := by
+  obtain ⟨hlt, hli⟩ := List.getElem?_eq_some_iff.1 hr
+  unfold idx
+  rw [List.map_set, hi, ← hli]
+  have : (List.map (·.index) l)[i]'(by simpa using hlt) = l[i].index := by simp
+  rw [← this]
+  exact List.set_getElem_self _
+
+theorem RInv_mark {rs : Requests} {i : Nat} {r r' : Req} (h : RInv rs) (hr : rs.requested[i]? = some r)
+    (hi : r'.index = r.index) : RInv { rs with requested := rs.requested.set i r' } := by
+  unfold RInv
+  simp only [idx_set_same hr hi]
+  exact h
+
+theorem mem_set_index {l : List Req} {i : Nat} {r r' x : Req} (hr : l[i]? = some r)
+    (hi : r'.index = r.index) (hx : x ∈ l.set i r') : ∃ y, y ∈ l ∧ x.index = y.index := by
+  rcases List.mem_or_eq_of_mem_set hx with h | h
+  · exact ⟨x, h, rfl⟩
+  · exact ⟨r, List.mem_of_getElem? hr, by rw [h, hi]⟩
+
+theorem RInv_cancel {rs : Requests} (h : RInv rs) (c : Nat) :
+    RInv (cancel rs c).1 ∧
+    (∀ x, x ∈ (cancel rs c).1.requested → ∃ y, y ∈ rs.requested ∧ x.index = y.index) := by
+  have triv : RInv rs ∧ (∀ x, x ∈ rs.requested → ∃ y, y ∈ rs.requested ∧ x.index = y.index) :=
+    ⟨h, fun x hx => ⟨x, hx, rfl⟩⟩
+  unfold cancel
+  split
+  · exact triv
+  · split
+    · exact triv
+    · rename_i i hf
+      split
+      · exact triv
+      · rename_i r hr
+        split
+        · exact triv
+        · exact ⟨RInv_mark h hr rfl, fun x hx =>
+            mem_set_index (r' := { r with cancelled := true, cage := 1 }) hr rfl hx⟩
+
+theorem RInv_clear_false {rs : Requests} (h : RInv rs) : RInv (clear rs false).1 := by
+  unfold clear
+  simp only [Bool.false_eq_true, if_false]
+  constructor
+  · simp only [idx, List.map_nil, List.nil_append]
+    have := h.1
+    rw [List.nodup_append] at this
+    exact this.2.1
+  · intro c
+    simp only [idx, List.map_nil, List.not_mem_nil, false_or, List.any_eq_true, beq_iff_eq,
+      List.mem_map]
+
+theorem RInv_age {rs : Requests} (h : RInv rs) (d : Nat) : RInv (age rs d) := by
+  unfold RInv age
+  have : idx (rs.requested.map (fun r =>
+      { r with rage := r.rage + d, cage := if r.cancelled then r.cage + d else r.cage })) =
+      idx rs.requested := by
+    simp [idx, List.map_map, Function.comp_def]
+  simp only [this]
+  exact h
+
+theorem mem_age_index {rs : Requests} {d : Nat} {x : Req} (hx : x ∈ (age rs d).requested) :
+    ∃ y, y ∈ rs.requested ∧ x.index = y.index := by
+  unfold age at hx
+  simp only [List.mem_map] at hx
+  obtain ⟨y, hy, e⟩ := hx
+  exact ⟨y, hy, by rw [← e]⟩
+
+/-! ### the bundle carried through the peer's handlers -/
+
+/-- every queued / sent chunk number is below `N`, and the representation invariant holds -/
+def RQ (N : Nat) (rs : Requests) : Prop :=
+  (∀ r, r ∈ rs.queue → r.index < N) ∧ (∀ r, r ∈ rs.requested → r.index < N) ∧ RInv rs
+
+theorem RQ_empty (N : Nat) : RQ N {} := ⟨by simp, by simp, RInv_empty⟩
+
+theorem RQ_enqueue {N : Nat} {rs : Requests} (h : RQ N rs) {c : Nat} (hc : c < N) :
+    RQ N (enqueue rs c).1 := by
+  refine ⟨?_, ?_, RInv_enqueue h.2.2 c⟩
+  · intro r hr
+    unfold enqueue at hr
+    split at hr
+    · exact h.1 r hr
+    · simp only [List.mem_append, List.mem_singleton] at hr
+      rcases hr with hr | hr
+      · exact h.1 r hr
+      · subst hr; exact hc
+  · intro r hr
+    unfold enqueue at hr
+    split at hr <;> exact h.2.1 r hr
+
+theorem RQ_dequeue {N : Nat} {rs rs1 : Requests} {q : Req} (h : RQ N rs)
+    (hd : dequeue rs = some (q, rs1)) :
+    RQ N rs1 ∧ q.index < N ∧ q.index ∉ idx rs.requested ∧ rs1.member q.index = false := by
+  obtain ⟨h1, h2, h3⟩ := RInv_dequeue h.2.2 hd
+  unfold dequeue at hd
+  split at hd
+  · cases hd
+  · rename_i q' rest hq
+    cases hd
+    refine ⟨⟨?_, h.2.1, h1⟩, h.1 q (by rw [hq]; exact List.mem_cons_self), h2, h3⟩
+    intro r hr
+    exact h.1 r (by rw [hq]; exact List.mem_cons_of_mem _ hr)
+
+theorem RQ_enqueueRequest {N : Nat} {rs rs2 : Requests} {r : Req} (h : RQ N rs) (hr : r.index < N)
+    (he : enqueueRequest rs r = some rs2) : RQ N rs2 := by
+  have hm : rs.member r.index = false := by
+    unfold enqueueRequest at he
+    split at he
+    · cases he
+    · rename_i hm; simpa using hm
+  obtain ⟨rs2', e, hinv⟩ := RInv_enqueueRequest h.2.2 hm
+  rw [he] at e
+  cases e
+  unfold enqueueRequest at he
+  simp only [hm, Bool.false_eq_true, if_false, Option.some.injEq] at he
+  subst he
+  refine ⟨h.1, ?_, hinv⟩
+  intro x hx
+  simp only [List.mem_append, List.mem_singleton] at hx
+  rcases hx with hx | hx
+  · exact h.2.1 x hx
+  · subst hx; exact hr
+
+theorem RQ_del {N : Nat} {rs rs2 : Requests} {c : Nat} {ro q r : Bool} (h : RQ N rs)
+    (hd : del rs c ro = some (rs2, q, r)) : RQ N rs2 := by
+  obtain ⟨h1, h2, h3⟩ := RInv_del h.2.2 hd
+  exact ⟨fun x hx => h.1 x (h3 x hx), fun x hx => h.2.1 x (h2 x hx), h1⟩
+
+theorem delRequested_queue' (rs : Requests) (c : Nat) : (delRequested rs c).1.queue = rs.queue := by
+  unfold delRequested del
+  split <;> rename_i h
+  · split at h
+    · cases h; rfl
+    · split at h
+      · cases h; rfl
+      · simp only [if_true] at h
+        cases h; rfl
+  · rfl
+
+theorem RQ_delRequested {N : Nat} {rs : Requests} (h : RQ N rs) (c : Nat) :
+    RQ N (delRequested rs c).1 := by
+  obtain ⟨h1, h2⟩ := RInv_delRequested h.2.2 c
+  refine ⟨?_, fun x hx => h.2.1 x (h2 x hx), h1⟩
+  rw [delRequested_queue']
+  exact h.1
+
+theorem RQ_mark {N : Nat} {rs : Requests} {i : Nat} {r r' : Req} (h : RQ N rs)
+    (hr : rs.requested[i]? = some r) (hi : r'.index = r.index) :
+    RQ N { rs with requested := rs.requested.set i r' } := by
+  refine ⟨h.1, ?_, RInv_mark h.2.2 hr hi⟩
+  intro x hx
+  obtain ⟨y, hy, e⟩ := mem_set_index hr hi hx
+  rw [e]; exact h.2.1 y hy
+
+theorem cancel_queue' (rs : Requests) (c : Nat) : (cancel rs c).1.queue = rs.queue := by
+  unfold cancel
+  split
+  · rfl
+  · split
+    · rfl
+    · split
+      · rfl
+      · split <;> rfl
+
+theorem RQ_cancel {N : Nat} {rs : Requests} (h : RQ N rs) (c : Nat) : RQ N (cancel rs c).1 := by
+  obtain ⟨h1, h2⟩ := RInv_cancel h.2.2 c
+  refine ⟨?_, ?_, h1⟩
+  · rw [cancel_queue']; exact h.1
+  · intro x hx
+    obtain ⟨y, hy, e⟩ := h2 x hx
+    rw [e]; exact h.2.1 y hy
+
+theorem RQ_clear {N : Nat} {rs : Requests} (h : RQ N rs) (both : Bool) : RQ N (clear rs both).1 := by
+  cases both with
+  | true =>
+    refine ⟨?_, ?_, RInv_clear_both rs⟩ <;> simp [clear]
+  | false =>
+    refine ⟨?_, ?_, RInv_clear_false h.2.2⟩
+    · simp [clear]
+    · intro x hx
+      have : (clear rs false).1.requested = rs.requested := by simp [clear]
+      rw [this] at hx
+      exact h.2.1 x hx
+
+theorem RQ_age {N : Nat} {rs : Requests} (h : RQ N rs) (d : Nat) : RQ N (age rs d) := by
+  refine ⟨h.1, ?_, RInv_age h.2.2 d⟩
+  intro x hx
+  obtain ⟨y, hy, e⟩ := mem_age_index hx
+  rw [e]; exact h.2.1 y hy
 
 end Storrent.Requests
